@@ -27,6 +27,7 @@ import GraphiqModel.Proofs.HilbertDimCPTP
 import GraphiqModel.Proofs.HilbertDimExpect
 import GraphiqModel.Proofs.HilbertDimOverlap
 import GraphiqModel.Proofs.HilbertDimReduced
+import GraphiqModel.Proofs.HilbertDimBorn
 namespace Graphiq.C07
 open Graphiq Graphiq.PRow Graphiq.Tab
 
@@ -1303,7 +1304,10 @@ theorem pure_state_is_ket {ι : Type} [Fintype ι] [DecidableEq ι] (P : Matrix 
     (htr : Matrix.trace P = 1) : ∃ ψ : ι → ℂ, P = Matrix.vecMulVec ψ (star ψ) ∧ star ψ ⬝ᵥ ψ = 1 :=
   rank_one_of_pure P hP hH htr
 
-/-- **The literal rank-one form of a stabilizer state.**  For every valid Clifford tableau (real stabilizer rows), every
+/-- **The literal rank-one form of a stabilizer state.**  (Compare `C11.stabilizer_state_is_rank_one`: there `ψ = V|0…0⟩` is
+    constructed from the synthesised inverse circuit, for any independent real commuting generating set; here `ψ` comes from
+    purity alone (`pure_state_is_ket`) and the theorem adds that `ψ` is the joint `+1` eigenvector of the whole group and is
+    unique up to a scalar.)  For every valid Clifford tableau (real stabilizer rows), every
     `n`: there is a unit vector `ψ ∈ ℂ^(2^n)` with `ρ = |ψ⟩⟨ψ|` (entrywise `ρ a b = ψ a · conj(ψ b)`); `ψ` is a `+1`
     eigenvector of every element of the stabilizer group; and every vector fixed by the `n` generators is a scalar multiple
     of `ψ` — the tableau determines the state vector up to a phase. -/
@@ -1440,8 +1444,10 @@ example : rho 2 (STab.ofTab (Tab.ket0 2)) * rho 2 (STab.ofTab (Tab.ket1 2)) = 0 
     ((isSymplectic_iff_valid _).mp (by decide)) (stabRealB_spec _ (by decide))).2 (Zq 0)
     (grp_gen (Tab.ket0 2) 0 (by decide)) (grp_gen (Tab.ket1 2) 0 (by decide))
 
-/-- **The overlap of two stabilizer states** (the bridge "group-level overlap = `|⟨a|b⟩|²`" that the fidelity theorems of C05
-    cite).  `A`, `B` the stabilizer halves of two valid tableaux on `n` qubits:
+/-- **The overlap of two stabilizer states.**  (Compare `C05.fidelity_is_state_overlap` / `fidelity_is_squared_inner_product`,
+    proved independently through the synthesised inverse circuit: they evaluate `tr(ρ_a ρ_b)` as the value *returned by the
+    model of `inner_product`*; the theorem here evaluates it in terms of the two *groups* — `Orth`, `commonCount`,
+    `OverlapDim`, the gauge-independent specification — by averaging over the group, with no reference to the algorithm.)  `A`, `B` the stabilizer halves of two valid tableaux on `n` qubits:
     * `Orth A B` (some `P ∈ A` with `−P ∈ B`) ⇒ `tr(ρ_a ρ_b) = 0`;
     * otherwise `tr(ρ_a ρ_b) = commonCount A B / 2^n` — the brute-force executable specification of
       `Model/OverlapSpec.lean` (the quantity the C05 harness compares with graphiq's `fidelity`) is the Hilbert-space overlap;
@@ -1488,8 +1494,9 @@ example : Matrix.trace (rho 2 (STab.ofTab bell) * rho 2 (STab.ofTab (Tab.ket0 2)
     `Tr_rem ρ = (2^k / 2^m) · Π` with `Π = ∏_{i<k} (1 + c_i|_kept)/2` an orthogonal projector: the reduced state is maximally
     mixed on the subspace stabilized by the restricted subgroup, `σ² = (2^k/2^m) σ`, purity `tr σ² = 2^{-(m-k)}` — the
     entanglement entropy of the cut is `m − k` bits (the quantity behind the height function of C03; `k = m` is the
-    product-factor case of `partial_trace_factor_is_partial_trace`).  Also: the partial trace of a Pauli matrix, and the
-    reduced state as the sum over the stabilizers supported on the kept qubits. -/
+    product-factor case of `partial_trace_factor_is_partial_trace`).  A local basis always exists, with
+    `k = dim_GF(2) (G ∩ {trivial on rem})`: the unconditional form is `C03.reduced_state_has_flat_spectrum`, and
+    `C03.height_is_entanglement_entropy` identifies graphiq's height function with this entropy. -/
 theorem reduced_state_of_stabilizer_state (m : Nat) (t : Tab) (rem : List Nat) (hn : t.n = m + rem.length)
     (hv : t.Valid) (hr : t.StabReal) (hpw : rem.Pairwise (· > ·)) (hlt : ∀ q, q ∈ rem → q < t.n) (k : Nat)
     (c : Nat → PRow) (hb : IsLocalBasis t rem k c) :
@@ -1533,5 +1540,63 @@ example : IsLocalBasis bell [1] 0 (fun _ => PRow.one) := by
   · first | exact absurd ex (by decide) | exact absurd ez (by decide)
   · first | exact absurd ex (by decide) | exact absurd ez (by decide)
   · first | exact absurd ex (by decide) | exact absurd ez (by decide)
+
+/-! ### 7.11 the Born rule along every history -/
+
+/-- **Born rule for one measurement**: on a valid tableau the outcome that `z_measurement_gate` reports (the forced / drawn
+    `o` when the measurement is random, the determined one otherwise) has Born probability `tr(Π ρ) = ½` resp. `1`; the other
+    outcome has probability `½` resp. `0` -/
+theorem born_rule_measurement (t : Tab) (q : Nat) (o : Bool) (hq : q < t.n) (hv : t.Valid) (hr : t.StabReal) :
+    measProb t.n q o (rho t.n (STab.ofTab t)) = (1 / 2 : ℂ) ^ randBit t q ∧
+    measProb t.n q o (rho t.n (STab.ofTab t))
+      = Matrix.trace (proj t.n (Zq q (t.zMeasure q o).2.1) * rho t.n (STab.ofTab t)) ∧
+    (randBit t q = if (t.pivot q).isSome then 1 else 0) := by
+  refine ⟨measProb_tab t q o hq hv hr, ?_, rfl⟩
+  unfold measProb
+  rw [(meas_density t q o hq hv hr).1]
+
+/-- **Born rule for every outcome script.**  The stabilizer simulator draws the outcome of a random measurement uniformly, so
+    it produces a given outcome script with probability `2^{-#random measurements}` (`randOps`, counted along the run: explicit
+    measurements, resets, removals, and the removals inside partial traces).  `dProbOps` is the Born probability of that
+    script: the product over the same measurements of `tr(Π ρ)` for the outcome that occurs, on the density matrix reached so
+    far (`dOps`).  They are equal along every accepted history from every valid tableau. -/
+theorem born_rule_history (ops : List Tab.Op) (hops : ∀ op ∈ ops, WF op) :
+    ∀ (t t' : Tab), t.Valid → t.StabReal → t.runOps ops = .ok t' →
+      dProbOps ops (dstate t) = (1 / 2 : ℂ) ^ randOps t ops := by
+  induction ops with
+  | nil => intro t t' _ _ _; simp [dProbOps, randOps]
+  | cons op rest ih =>
+    intro t t' hv hr h
+    simp only [runOps] at h
+    split at h
+    · next t1 out h1 =>
+      have hop := hops op List.mem_cons_self
+      have v1 := op_preserves_valid t t1 op out hop hv h1
+      have r1 := (op_tracks_state t t1 op out hop hv hr h1).1
+      have d1 := op_tracks_density_matrix t t1 op out hop hv hr h1
+      have b1 := op_born t t1 op out hv hr h1
+      have ihh := ih (fun o ho => hops o (List.mem_cons_of_mem _ ho)) t1 t' v1 r1 h
+      show dProbOp op (dstate t) * dProbOps rest (dOp op (dstate t)) = (1 / 2 : ℂ) ^ (randOp t op +
+        match t.applyOp op with
+        | .ok (t', _) => randOps t' rest
+        | .error _ => 0)
+      rw [h1, b1, ← d1, ihh, pow_add]
+    · simp at h
+
+/-- GHZ₃: measure qubit 0 (random), then qubit 1 (now deterministic): the script has Born probability `½ · 1` -/
+example : dProbOps [.meas 0 true, .meas 1 true] (dstate ghz3) = (1 / 2 : ℂ) ^ randOps ghz3 [.meas 0 true, .meas 1 true] ∧
+    randOps ghz3 [.meas 0 true, .meas 1 true] = 1 := by
+  refine ⟨?_, by decide⟩
+  have hwf : ∀ op ∈ ([.meas 0 true, .meas 1 true] : List Tab.Op), WF op := by
+    intro op hop
+    simp only [List.mem_cons, List.mem_nil_iff, or_false] at hop
+    rcases hop with rfl | rfl <;> trivial
+  cases hrun : ghz3.runOps [.meas 0 true, .meas 1 true] with
+  | error e =>
+    exfalso
+    have : (match ghz3.runOps [.meas 0 true, .meas 1 true] with | .ok _ => true | .error _ => false) = true := by
+      decide +kernel
+    rw [hrun] at this; cases this
+  | ok t' => exact born_rule_history _ hwf ghz3 t' ghz3_valid ghz3_stabReal hrun
 
 end Graphiq.C07
